@@ -14,7 +14,8 @@ import coqrun, impl, gen_games
 RULE = ("well-formed games from the terminating families (stopping/exact random games 3-9 states, "
         "dead/alive successor patterns k<=3 for both node kinds, figure 5.5) x every mode sequence in "
         "{pruned,unpruned}^<=3 (quick) / <=4 (thorough), each once through one StochasticGame object and once "
-        "through fresh objects, plus random mixed object patterns; baseline = the same mode on a fresh deep copy. "
+        "through fresh objects, plus random mixed object patterns; also games with two final states listed in descending "
+        "order and 'twin' games spelt with one list object for equal rows; baseline = the same mode on a fresh deep copy. "
         "non-trivial = a game whose pruned solve rebinds some next_states to a different list (pruning removed "
         "something); distinct by game description")
 ASSUMPTIONS = ["copy.deepcopy yields a disjoint equal structure; == on lists/tuples is structural",
@@ -71,7 +72,13 @@ def gen(ctx):
     n = 200 if ctx.quick else 700
     games = [(gen_games.FIG55, gen_games.FIG55_META)]
     games += gen_games.pattern_games(3)
-    games += gen_games.mixed_games(ctx.rng, n, styles=("stopping", "exact"))
+    rnd = gen_games.mixed_games(ctx.rng, n, styles=("stopping", "exact"))
+    games += rnd
+    # descriptions a careless solver could disturb in other places than a row: several final states listed in
+    # descending order; one list object shared by equal rows (solve_seq then runs on the shared spelling, the
+    # baseline on fresh unshared copies)
+    games += gen_games.two_final_games(rnd, ctx.rng, 30 if ctx.quick else 120)
+    games += gen_games.twin_games(rnd, ctx.rng, 30 if ctx.quick else 120)
     kept = [gm for gm in games if not rewarded_player_cycle(gm[0])]
     ctx.count("dropped: rewarded player-only cycle (reward loop diverges)", len(games) - len(kept))
     return kept
@@ -132,7 +139,7 @@ def run(ctx):
             k = ctx.rng.randint(2, maxlen)
             mine.append(("mixed", [[ctx.rng.random() < 0.5, ctx.rng.random() < 0.5] for _ in range(k)]))
         for label, steps in mine:
-            jobs.append(dict(op="solve_seq", game=eg, steps=steps))
+            jobs.append(dict(op="solve_seq", game=eg, steps=steps, share=bool(meta.get("share"))))
             where.append((gi, label, steps))
     res = impl.run_cases(jobs, limit=20, tag="c10")
     base = {}
@@ -184,7 +191,7 @@ def run(ctx):
         ctx.evaluations += 1
         nseq += 1
         ctx.count("sequence:%s,len=%d" % (kind, len(steps)))
-        inp = dict(game=enc(g), steps=steps)
+        inp = dict(game=enc(g), steps=steps, share=bool(games[gi][1].get("share")))
         if "timeout" in r:
             ctx.violation("solve sequence did not finish within the time limit", inp, impl=r)
             continue
@@ -232,7 +239,7 @@ def run(ctx):
     for b in bad2:
         gi, steps = seq_meta[b]
         ctx.corr_break("the store model (solve_seq_H) and the implementation disagree on a solve sequence "
-                       "(results or the caller's rows afterwards)", dict(game=enc(games[gi][0]), steps=steps))
+                       "(results or the caller's rows afterwards)", dict(game=enc(games[gi][0]), steps=steps, share=bool(games[gi][1].get("share"))))
     for e in errs + errs2:
         ctx.harness_errors.append("coqc failed on %s: %s" % (e[0], e[2][-500:]))
     ctx.notes.append("%d games, %d solve sequences, %d distinct (game, mode, result) cases through the pure model, "
@@ -245,7 +252,7 @@ def replay(ctx, data):
         print("no input recorded in", data.get("kind"))
         return 1
     eg, steps = v["game"], v["steps"]
-    r = impl.run_cases([dict(op="solve_seq", game=eg, steps=steps),
+    r = impl.run_cases([dict(op="solve_seq", game=eg, steps=steps, share=bool(v.get("share"))),
                         dict(op="solve", game=eg, prune=True), dict(op="solve", game=eg, prune=False)], tag="c10r")
     base = {True: r[1], False: r[2]}
     rc = 0
